@@ -56,7 +56,9 @@ try:
                                  'summary': (p.stdout.strip().splitlines() or [p.stderr[-200:]])[-1]}
 finally:
     sh('git -C /repo checkout -- .')
-meta['what_it_needs'] = None
+sys.path.insert(0, os.path.dirname(os.path.abspath(__file__)))
+import seed_needs  # noqa: E402
+meta['what_it_needs'] = seed_needs.needs(sid, dst)
 meta['ran'] = ['git apply --3way patch.diff (scratch worktree at %s)' % head, 'pytest (454 tests) with the change', 'demo.py with and without the change',
                'git -C /repo apply patch.diff; ' + '; '.join('python -m ymc run %s --tier quick' % c for c in checks) + '; git -C /repo checkout -- .']
 json.dump(meta, open(os.path.join(dst, 'meta.json'), 'w'), indent=1)
